@@ -594,6 +594,31 @@ func (v *View) Resolve(op Op) *TxMeta {
 			ref = bi(c.Volume)
 		}
 		typ, data = transaction.TypeBuyCoin, transaction.BuyCoinData{CoinToBuy: cb, ValueToBuy: op.v(0).resolve(ref), CoinToSell: cs, MaximumValueToSell: op.v(1).resolve(bal(cs))}
+	case "sellheadroom":
+		// sell base coin for the bancor coin closest to its max supply: the deposit is a fraction of the
+		// headroom counted in coins, so a coin priced below 1 would be minted beyond its max supply
+		var best *types.Coin
+		var room *big.Int
+		for _, id := range v.S.CoinIDs {
+			c := v.S.Coins[id]
+			if c.Crr == 0 || c.Version != 0 {
+				continue
+			}
+			h := new(big.Int).Sub(bi(c.MaxSupply), bi(c.Volume))
+			if best == nil || h.Cmp(room) < 0 {
+				best, room = c, h
+			}
+		}
+		if best == nil || room.Sign() <= 0 {
+			typ, data = transaction.TypeSellCoin, transaction.SellCoinData{CoinToSell: 0, ValueToSell: big.NewInt(1), CoinToBuy: v.coinAny(op.x(1)), MinimumValueToBuy: big.NewInt(0)}
+			break
+		}
+		frac := []int64{20, 100, 300, 600, 900, 990, 1000, 1500}[mod(op.x(1), 8)]
+		val := new(big.Int).Div(new(big.Int).Mul(room, big.NewInt(frac)), big.NewInt(1000))
+		if val.Sign() <= 0 {
+			val = big.NewInt(1)
+		}
+		typ, data = transaction.TypeSellCoin, transaction.SellCoinData{CoinToSell: 0, ValueToSell: val, CoinToBuy: types.CoinID(best.ID), MinimumValueToBuy: big.NewInt(0)}
 	case "buyheadroom":
 		// buy a bancor coin up to (and a little across) its max supply, often paying the fee in that coin
 		var best *types.Coin
@@ -936,6 +961,18 @@ func (v *View) Resolve(op Op) *TxMeta {
 		want := big.NewInt(1e10)
 		if ids := v.orderIDs(); len(ids) > 0 {
 			oid := ids[mod(op.x(0), len(ids))]
+			if op.x(5)%2 == 0 {
+				// the smallest order of all (dust-sized orders change their double-precision price with
+				// every partial fill)
+				var small *big.Int
+				for _, p := range v.S.Pools {
+					for _, o := range p.Orders {
+						if vol := new(big.Int).Add(bi(o.Volume0), bi(o.Volume1)); small == nil || vol.Cmp(small) < 0 {
+							small, oid = vol, o.ID
+						}
+					}
+				}
+			}
 			for _, p := range v.S.Pools {
 				for _, o := range p.Orders {
 					if o.ID == oid {
